@@ -395,7 +395,10 @@ def unproject(p, t, T):
     if k in ("struct", "union"):
         kw = {}
         for f, rf, fv in zip(t["fields"], T.__fields__, p["vals"]):
-            kw[rf._name] = unproject(fv, f["type"], rf.type)
+            if f["bits"] and f["type"]["k"] == "char":
+                kw[rf._name] = unpint(fv)
+            else:
+                kw[rf._name] = unproject(fv, f["type"], rf.type)
         return T(**kw)
     raise ValueError(k)
 
@@ -659,3 +662,232 @@ def has_dup_names(t):
     if k == "arr":
         return has_dup_names(t["elem"])
     return False
+
+
+# ------------------------------------------------------------------------------------------ bounded universes
+def field_alphabet(mode):
+    """The field kinds of U_small (DESIGN.md section 3).  Each entry: list of fields it contributes."""
+    E = t_enum("E1", "uint8", [("A", 1), ("B", 2)])
+    F = t_enum("F1", "uint16", [("X", 1), ("Y", 4)], flag=True)
+    inner = t_struct("in1", [field("x", t_int("uint8")), field("y", t_int("uint16"))])
+    un = t_struct("un1", [field("p", t_int("uint8")), field("q", t_int("uint16"))], union=True)
+    kinds = {
+        "u8": [field("{n}", t_int("uint8"))], "i8": [field("{n}", t_int("int8"))],
+        "u16": [field("{n}", t_int("uint16"))], "i16": [field("{n}", t_int("int16"))],
+        "u32": [field("{n}", t_int("uint32"))], "i64": [field("{n}", t_int("int64"))],
+        "u24": [field("{n}", t_int("uint24"))], "i24": [field("{n}", t_int("int24"))], "i128": [field("{n}", t_int("int128"))],
+        "c2": [field("{n}", t_arr(t_char(), L_fixed(2)))], "u8x2": [field("{n}", t_arr(t_int("uint8"), L_fixed(2)))],
+        "u16x2x2": [field("{n}", t_arr(t_arr(t_int("uint16"), L_fixed(2)), L_fixed(2)))],
+        "ptr": [field("{n}", t_ptr(t_int("uint8")))], "nest": [field("{n}", inner)], "union": [field("{n}", un)],
+        "bits8": [field("{n}a", t_int("uint8"), 3), field("{n}b", t_int("uint8"), 5)],
+        "bits16": [field("{n}a", t_int("uint16"), 4), field("{n}b", t_int("uint16"), 9)],
+        "ibits32": [field("{n}a", t_int("int32"), 31), field("{n}b", t_int("int32"), 1)],
+        "ebits": [field("{n}a", E, 2), field("{n}b", E, 6)],
+        "leb": [field("{n}", t_leb(True))], "uleb": [field("{n}", t_leb(False))],
+        "wchar": [field("{n}", t_wchar())], "w2": [field("{n}", t_arr(t_wchar(), L_fixed(2)))],
+        "f16": [field("{n}", t_float("float16"))], "f32": [field("{n}", t_float("float"))], "f64": [field("{n}", t_float("double"))],
+        "enum": [field("{n}", E)], "flag": [field("{n}", F)],
+        "u8null": [field("{n}", t_arr(t_int("uint8"), L_NULL))], "cnull": [field("{n}", t_arr(t_char(), L_NULL))],
+        "wnull": [field("{n}", t_arr(t_wchar(), L_NULL))],
+        "void": [field("{n}", t_void())],
+        "nestarr": [field("{n}", t_arr(inner, L_fixed(2)))],
+    }
+    return kinds
+
+
+def universe(max_fields=2, kinds=None, modes=None, with_len_field=True):
+    """All structures of 1..max_fields entries of the alphabet x modes (+ a length-prefixed array family)."""
+    import itertools
+
+    modes = modes or [{"endian": e, "align": a, "ptr": p} for e in "<>" for a in (False, True) for p in (2, 8)]
+    out = []
+    for mode in modes:
+        alpha = field_alphabet(mode)
+        names = kinds or list(alpha)
+        for n in range(1, max_fields + 1):
+            for combo in itertools.product(names, repeat=n):
+                if mode["ptr"] != 8 and "ptr" not in combo:
+                    continue        # the pointer width only matters when there is a pointer
+                fields = []
+                for i, kname in enumerate(combo):
+                    for f in alpha[kname]:
+                        g = dict(f)
+                        g["name"] = f["name"].format(n=f"f{i}")
+                        fields.append(g)
+                out.append({"type": t_struct("S", fields), "mode": mode, "consts": {"_": 0}})
+        if with_len_field:
+            for elem in (t_int("uint8"), t_int("uint16"), t_char(), t_wchar(), alpha["nest"][0]["type"]):
+                for e in (e_id("n"), e_bin("-", e_bin("&", e_id("n"), e_lit(3)), e_lit(1)), e_bin("*", e_id("K"), e_bin("&", e_id("n"), e_lit(1)))):
+                    fields = [field("n", t_int("uint8")), field("d", t_arr(elem, L_expr(e))), field("t", t_int("uint16"))]
+                    out.append({"type": t_struct("S", fields), "mode": mode, "consts": {"K": 2}})
+            out.append({"type": t_struct("S", [field("h", t_int("uint8")), field("d", t_arr(t_int("uint16"), L_EOF))]), "mode": mode, "consts": {"_": 0}})
+    return out
+
+
+# ------------------------------------------------------------------------------------------ value generation
+def has_kind(t, kinds):
+    k = t["k"]
+    if k in kinds:
+        return True
+    if k == "arr":
+        return has_kind(t["elem"], kinds)
+    if k == "ptr":
+        return False
+    if k in ("struct", "union"):
+        return any(has_kind(f["type"], kinds) for f in t["fields"])
+    return False
+
+
+def int_bounds(size, signed):
+    return (-(1 << (8 * size - 1)), (1 << (8 * size - 1)) - 1) if signed else (0, (1 << (8 * size)) - 1)
+
+
+def gen_int(rnd, size, signed):
+    lo, hi = int_bounds(size, signed)
+    r = rnd.random()
+    if r < 0.35:
+        return rnd.choice([lo, hi, 0, 1, -1 if signed else hi - 1, lo + 1, hi // 2, (hi // 2) + 1])
+    if r < 0.6:
+        return rnd.randrange(lo, hi + 1)
+    return max(lo, min(hi, rnd.choice([1, 2, 3, 127, 128, 255, 256, -128, -129, 65535, 65536])))
+
+
+def gen_value(rnd, t, mode, consts, ctx=None, nonzero=False):
+    """A random abstract value of type t that is Consistent (DESIGN 4.0): expression-length arrays have the length their
+    expression gives, null-terminated arrays contain no zero element."""
+    k = t["k"]
+    if k == "int":
+        while True:
+            v = gen_int(rnd, t["size"], t["signed"])
+            if v or not nonzero:
+                return pint(v)
+    if k == "leb":
+        while True:
+            v = rnd.choice([0, 1, 63, 64, 127, 128, 300, 16383, 16384, 2 ** 35 + 5, 2 ** 70])
+            if t["signed"] and rnd.random() < 0.5:
+                v = -v - rnd.randrange(2)
+            if v or not nonzero:
+                return pint(v)
+    if k == "enum":
+        while True:
+            v = rnd.choice([unpint(m["value"]) for m in t["members"]] + [gen_int(rnd, t["base"]["size"], t["base"]["signed"])])
+            if t["flag"] and v < 0:
+                continue
+            if v or not nonzero:
+                return {"k": "enum", "cls": t["name"], "v": pint(v)}
+    if k == "ptr":
+        return {"k": "ptr", "addr": pint(gen_int(rnd, mode["ptr"], False))}
+    if k == "float":
+        fmt = {2: ">e", 4: ">f", 8: ">d"}[t["size"]]
+        while True:
+            b = bytes(rnd.choice([0, 0x3C, 0x7B, 0x80, 0xFF, rnd.randrange(256)]) for _ in range(t["size"]))
+            x = _struct.unpack(fmt, b)[0]
+            if not math.isnan(x) and (x != 0 or not nonzero):
+                return {"k": "float", "bits": list(b)}
+    if k == "char":
+        return {"k": "bytes", "b": [rnd.randrange(1 if nonzero else 0, 256)]}
+    if k == "wchar":
+        return {"k": "str", "cps": [gen_cp(rnd, bmp=True, nonzero=nonzero)]}
+    if k == "void":
+        return {"k": "void"}
+    if k == "arr":
+        ln, e = t["len"], t["elem"]
+        if ln["k"] == "fixed":
+            n = ln["n"]
+        elif ln["k"] == "expr":
+            n = max(0, eval_expr(ln["e"], dict(consts, **(ctx or {}))))
+        else:
+            n = rnd.randrange(0, 4)
+        nz = ln["k"] == "null"
+        if e["k"] == "char":
+            return {"k": "bytes", "b": [rnd.randrange(1 if nz else 0, 256) for _ in range(n)]}
+        if e["k"] == "wchar":
+            cps, units = [], 0
+            while units < n:
+                cp = gen_cp(rnd, bmp=(n - units < 2), nonzero=nz)
+                cps.append(cp)
+                units += 2 if cp >= 0x10000 else 1
+            return {"k": "str", "cps": cps}
+        return {"k": "list", "items": [gen_value(rnd, e, mode, consts, ctx, nonzero=nz) for _ in range(n)]}
+    if k in ("struct", "union"):
+        names, vals, env = [], [], {}
+        first = True
+        for f in t["fields"]:
+            if f["bits"]:
+                v = pint(rnd.choice([0, 1, (1 << f["bits"]) - 1, rnd.randrange(1 << f["bits"])]))
+                if nonzero and first and not unpint(v):
+                    v = pint(1)
+                if f["type"]["k"] == "enum":
+                    v = {"k": "enum", "cls": f["type"]["name"], "v": v}
+            else:
+                v = gen_value(rnd, f["type"], mode, consts, env, nonzero=nonzero and first)
+            first = False
+            names.append(f["name"])
+            vals.append(v)
+            if v.get("k") == "int" and len(v["mag"]) <= 1 and not v["neg"]:
+                env[f["name"]] = unpint(v)
+        return {"k": "struct", "cls": t["name"], "names": names, "vals": vals}
+    raise ValueError(k)
+
+
+def gen_cp(rnd, bmp=False, nonzero=False):
+    while True:
+        r = rnd.random()
+        if r < 0.5:
+            cp = rnd.randrange(1 if nonzero else 0, 128)
+        elif r < 0.85 or bmp:
+            cp = rnd.choice([0xFF, 0x100, 0xD7FF, 0xE000, 0xFFFF, rnd.randrange(0x80, 0xD800)])
+        else:
+            cp = rnd.choice([0x10000, 0x10FFFF, 0x1F600])
+        if cp or not nonzero:
+            return cp
+
+
+def leaf_paths(t, mode, path=()):
+    """Paths to integer-like leaves (fixed-width int, enum, pointer) that are not bit-fields and not inside unions."""
+    k = t["k"]
+    if k in ("int", "enum", "ptr"):
+        yield path, t
+    elif k == "struct":
+        for i, f in enumerate(t["fields"]):
+            if not f["bits"]:
+                yield from leaf_paths(f["type"], mode, path + (("f", i),))
+    elif k == "arr" and t["elem"]["k"] not in ("char", "wchar"):
+        yield from leaf_paths(t["elem"], mode, path + (("e", 0),))
+
+
+def set_leaf(v, path, new):
+    """Replace the leaf at `path` (array paths address element 0; returns None when that element does not exist)."""
+    if not path:
+        return new
+    kind, i = path[0]
+    if kind == "f":
+        sub = set_leaf(v["vals"][i], path[1:], new)
+        if sub is None:
+            return None
+        return dict(v, vals=v["vals"][:i] + [sub] + v["vals"][i + 1:])
+    if not v["items"]:
+        return None
+    sub = set_leaf(v["items"][0], path[1:], new)
+    if sub is None:
+        return None
+    return dict(v, items=[sub] + v["items"][1:])
+
+
+def misfit(rnd, leaf, mode):
+    """An integer that does not fit the leaf type, wrapped as that leaf's value kind."""
+    if leaf["k"] == "ptr":
+        size, signed = mode["ptr"], False
+    elif leaf["k"] == "enum":
+        size, signed = leaf["base"]["size"], leaf["base"]["signed"]
+    else:
+        size, signed = leaf["size"], leaf["signed"]
+    lo, hi = int_bounds(size, signed)
+    n = rnd.choice([hi + 1, lo - 1, hi + 256, lo - (1 << (8 * size)), (1 << (8 * size)) + 5])
+    if leaf["k"] == "enum" and leaf["flag"] and n < 0:
+        n = hi + 1
+    if leaf["k"] == "ptr":
+        return {"k": "ptr", "addr": pint(n)}
+    if leaf["k"] == "enum":
+        return {"k": "enum", "cls": leaf["name"], "v": pint(n)}
+    return pint(n)
